@@ -160,6 +160,8 @@ def group_oracle(metas, parsed):
                     continue
                 if len(tb) > 2 and len(tr) > 2 and not close(tb[2], tr[2], 1e-9):
                     out.append((cid, "copies-early-steps", "the second accepted step already differs: %r vs %r" % (tb[2], tr[2])))
+                if not b.get("y") or not r.get("y"):
+                    continue   # a run that reports no sample at all (e.g. an Err from solve_ivp): equal statuses were checked above
                 yb, yr = b["y"][-1], r["y"][-1]
                 rt = kw["rtol"] if isinstance(kw["rtol"], float) else max(kw["rtol"])
                 at = kw["atol"] if isinstance(kw["atol"], float) else max(kw["atol"])
